@@ -65,6 +65,7 @@ STARTSWITH = Function('startswith', Val, Val, BoolSort())
 ENDSWITH = Function('endswith', Val, Val, BoolSort())
 ITEMS_OF = Function('items_of_iterating', Val, Val, BoolSort())   # y is produced by iterating the single value x (a character of the string x)
 CONTAINS = Function('str_contains', Val, Val, BoolSort())      # literal in s  (substring test on a symbolic string)
+CONCAT = Function('str_concat', Val, Val, Val)                 # s + t on two strings (uninterpreted; only its being a string is known)
 
 CLS_LIST = Const('class_list', Cls)
 CLS_TUPLE = Const('class_tuple', Cls)
@@ -312,8 +313,8 @@ class Maps:
         d = Const(name, Dct)
         return SV('pdict', None, pd=self.base_dict(d), cls=cls, tag=tag if tag is not None else self.cls_tag(cls), own=own, **f)
 
-    def mk_list(self, pl, cls='list', tag=None, own=True):
-        return SV('plist', None, pl=pl, cls=cls, tag=tag if tag is not None else self.cls_tag(cls), own=own)
+    def mk_list(self, pl, cls='list', tag=None, own=True, **f):
+        return SV('plist', None, pl=pl, cls=cls, tag=tag if tag is not None else self.cls_tag(cls), own=own, **{k: v for k, v in f.items() if v is not None})
 
     def mk_dict(self, pd, cls='dict', tag=None, own=True):
         return SV('pdict', None, pd=pd, cls=cls, tag=tag if tag is not None else self.cls_tag(cls), own=own)
@@ -680,6 +681,10 @@ class Maps:
         return args, kwargs, star, dstar
 
     def call(self, ex, st, e, fname, args, kwargs):
+        if fname in st.env and isinstance(st.env[fname], SV) and st.env[fname].kind == 'val':
+            r = self.call_value(ex, st, e, st.env[fname], args, kwargs)         # f(x) where f is a local holding a callable value
+            if r is not NotImplemented:
+                return r
         if fname in self.contracts:
             return self.contracts[fname](ex, st, args, kwargs)
         if fname == 'type' and len(args) == 1:
@@ -736,9 +741,12 @@ class Maps:
             v = args[0]
             if v.kind in ('plist', 'tuple'):
                 ex.use('axiom:list(xs) is a new list with the items of xs')
-                return self.mk_list(self.as_plist(ex, v))
+                r = self.mk_list(self.as_plist(ex, v), elty=v.f.get('elty') if v.kind == 'plist' else None)
+                if v.kind == 'tuple':
+                    r.f['items_sv'] = list(v.items)          # the items keep their static kinds (a literal string, a mapping, a callable)
+                return r
             if v.kind == 'pdict':
-                return self.mk_list(self.keys_list(ex, v.pd))
+                return self.mk_list(self.keys_list(ex, v.pd), elty=v.f.get('kty'))
             raise OutOfSubset('list(%s)' % v.kind)
         if fname == 'sorted' and len(args) == 1 and not kwargs and args[0].kind == 'lazylist':
             return self.sorted_pairs(ex, st, args[0])
@@ -812,10 +820,10 @@ class Maps:
                 if src.nodup is None:
                     raise OutOfSubset('ulist(xs, unique = True): uniqueness of xs is not expressible')
                 ex.oblige(st, 'call.ulist.unique_fast_path.pre.no_duplicates', src.nodup, kind='pre')
-                return self.mk_list(src, cls=base, tag=cls.tag)
+                return self.mk_list(src, cls=base, tag=cls.tag, elty=args[0].f.get('elty'))
             ex.use('callee contract:ulist(xs) = DEDUP(xs): no duplicates, same element set, first-occurrence order, at most len(xs) items '
                    '(body verified in C16 ulist.__init__.dedup.*: the set / index / sorted pipeline under the axioms of those builtins)')
-            return self.mk_list(self.dedup(ex, src), cls=base, tag=cls.tag)
+            return self.mk_list(self.dedup(ex, src), cls=base, tag=cls.tag, elty=args[0].f.get('elty'))
         if base is not None and self.is_subclass(base, 'dict'):
             return self.construct_dict(ex, st, cls, args, kwargs, star, dstar)
         raise OutOfSubset('constructor of %s' % base)
@@ -873,7 +881,8 @@ class Maps:
             key = self.resolve(nxt, mname) if nxt is not None else None
             if key is not None and key in ex.inline:
                 return ex.call_inline_expr(st, key, [obj] + list(args), kwargs)
-            return self.builtin_method(ex, st, e, SV('pdict', None, pd=obj.pd, cls='dict', tag=CLS_DICT, own=obj.own), mname, args, kwargs)
+            return self.builtin_method(ex, st, e, SV('pdict', None, pd=obj.pd, cls='dict', tag=CLS_DICT, own=obj.own,
+                                                     **{k: obj.f[k] for k in ('kty', 'vty') if k in obj.f}), mname, args, kwargs)
         return NotImplemented
 
     def builtin_method(self, ex, st, e, recv, mname, args, kwargs):
@@ -898,7 +907,7 @@ class Maps:
         if recv.kind == 'pdict':
             pd = recv.pd
             if mname == 'keys' and not args:
-                return self.mk_list(self.keys_list(ex, pd), cls='dict_keys', own=True)
+                return self.mk_list(self.keys_list(ex, pd), cls='dict_keys', own=True, elty=recv.f.get('kty'))
             if mname == 'items' and not args:
                 return SV('items', None, of=recv)
             if mname == 'get' and 1 <= len(args) <= 2:
@@ -938,7 +947,7 @@ class Maps:
                 ex.use('axiom:list.__init__(self, xs) replaces the items of self by the items of xs, in order (no argument: by nothing)')
                 self.mutate(ex, st, 'list.__init__', obj)
                 pl = self.as_plist(ex, args[0]) if args else PList.literal([])
-                f = dict(obj.f); f['pl'] = pl
+                f = dict(obj.f); f['pl'] = pl; f.pop('items_sv', None)
                 st.env[name] = SV('plist', None, **f)
                 return None
             if obj is None or obj.kind != 'pdict':
@@ -955,6 +964,11 @@ class Maps:
             obj = st.env[base.id]
             if obj.kind == 'pdict' and mname == 'update' and len(c.args) == 1 and not c.keywords:
                 o = ex.eval(st, c.args[0])
+                if o.kind == 'kwargs':               # the ** mapping of an inlined call made with explicit keywords only: a literal dict
+                    pd0 = PDict.empty()
+                    for k_, v_ in o.f['items'].items():
+                        pd0 = pd0.stored(self.strv(k_), self.to_val(ex, v_))
+                    o = self.mk_dict(pd0)
                 if o.kind != 'pdict':
                     raise OutOfSubset('dict.update(%s)' % o.kind)
                 ex.use('axiom:d.update(o): the items of o overwrite / are appended in the order of o')
@@ -1022,6 +1036,9 @@ class Maps:
             return V(recv.pd.get(k))
         if recv.kind == 'plist' and idx.kind == 'int':
             pl = recv.pl
+            svs = recv.f.get('items_sv')
+            if svs is not None and z3.is_int_value(simplify(idx.t)) and -len(svs) <= simplify(idx.t).as_long() < len(svs):
+                return svs[simplify(idx.t).as_long()]
             if pl.at is None:
                 raise OutOfSubset('indexing a list without index view')
             i = idx.t
@@ -1139,6 +1156,11 @@ class Maps:
             if op == 'BitOr':
                 return SV('pset', None, ps=PSet(lambda x: Or(a.ps.mem(x), b.ps.mem(x))))
             return SV('pset', None, ps=PSet(lambda x: And(a.ps.mem(x), Not(b.ps.mem(x)))))
+        if op == 'Add' and all(v.kind == 'str' or (v.kind == 'val' and v.f.get('ty') == 'str') for v in (a, b)) and 'val' in (a.kind, b.kind):
+            ex.use('uninterpreted:s + t on strings is an uninterpreted function of (s, t); the result is a string')
+            r = CONCAT(self.to_val(ex, a), self.to_val(ex, b))
+            ex.fact(IS_STR(r))
+            return V(r, 'str')
         return NotImplemented
 
     def expr(self, ex, st, e):
@@ -1196,6 +1218,11 @@ class Maps:
         if len(e.generators) != 1 or e.generators[0].is_async:
             raise OutOfSubset('dict comprehension with several generators')
         g = e.generators[0]
+        if isinstance(g.iter, ast.Call) and isinstance(g.iter.func, ast.Name) and g.iter.func.id == 'zip' and 'zip' not in st.env \
+                and len(g.iter.args) == 2 and not g.iter.keywords and not g.ifs:
+            r = self.dictcomp_zip(ex, st, e, g)
+            if r is not NotImplemented:
+                return r
         it = ex.eval(st, g.iter)
         env = dict(st.env)
         theory = self
@@ -1277,6 +1304,33 @@ class Maps:
             res = PDict(src.mem, lambda k: val_at(k)[0], src.fst, src.len)
             return self.mk_dict(res)
         raise OutOfSubset('dict comprehension form: %s' % ast.unparse(e)[:80])
+
+    def dictcomp_zip(self, ex, st, e, g):
+        """{k: v for k, v in zip(ks, vs)} over two lists of equal length (obligation): the keys are the members of ks in first-occurrence
+        order, the value under k is vs[j] for the last j with ks[j] == k (the only such j when ks is duplicate free)"""
+        if not (isinstance(g.target, ast.Tuple) and len(g.target.elts) == 2 and all(isinstance(x, ast.Name) for x in g.target.elts)
+                and isinstance(e.key, ast.Name) and isinstance(e.value, ast.Name) and e.key.id == g.target.elts[0].id and e.value.id == g.target.elts[1].id):
+            return NotImplemented
+        a, b = ex.eval(st, g.iter.args[0]), ex.eval(st, g.iter.args[1])
+        if a.kind != 'plist' or b.kind != 'plist' or b.pl.at is None or a.pl.at is None or a.pl.fst is None:
+            return NotImplemented
+        A, Bv = a.pl, b.pl
+        ex.oblige(st, 'zip.equal_lengths', A.len == Bv.len, kind='pre')
+        LAST = Function(fresh_name('last_index'), Val, IntSort())
+
+        def gen(E, J):
+            out = []
+            for x in E:
+                out.append(Implies(A.mem(x), And(A.fst(x) <= LAST(x), LAST(x) < A.len, A.at(LAST(x)) == x)))
+                if A.nodup is not None:
+                    out.append(Implies(And(A.mem(x), A.nodup), LAST(x) == A.fst(x)))
+                for j in J:
+                    out.append(Implies(And(0 <= j, j < A.len, A.at(j) == x), j <= LAST(x)))
+            return out
+        self.gens.append(gen)
+        ex.use('axiom:{k: v for k, v in zip(ks, vs)} for equally long lists has the members of ks as keys (first-occurrence order); the value under k '
+               'is vs[j] for the last j with ks[j] == k')
+        return self.mk_dict(PDict(A.mem, lambda k: Bv.at(LAST(k)), A.fst, A.len))
 
     def rekeyed(self, ex, src, m):
         """{m(k): v for k, v in d.items()}: every m(k) is a key; every key k' is m(k) for the *last* k (in order) with m(k) = k'
@@ -1451,6 +1505,12 @@ def validate_axioms(maxlen=4, symbols=3):
                     for y in set(r):
                         if (fst(r, x) < fst(r, y)) != (keyf(x) < keyf(y)):
                             bad.append(('sorted.order', src, x, y))
+    # {k: v for k, v in zip(ks, vs)}: keys in first-occurrence order, the value of the last occurrence
+    for a in lists:
+        vs = ['v%d' % j for j in range(len(a))]
+        r = {k: v for k, v in zip(a, vs)}
+        if list(r) != dedup(a) or any(r[k] != vs[max(j for j in range(len(a)) if a[j] == k)] for k in r):
+            bad.append(('dictcomp.zip', a))
     # dict stamps: relative order of keys under del / store / update equals the order given by the stamp model
     for a in lists:
         if len(set(a)) != len(a):
